@@ -39,6 +39,8 @@ def structures(tier):
             sts.append({'kind': 'select', 'tid': tidf, 'proc': proc, 'nc': 0, 'ns': 0})
     sts.append({'kind': 'select', 'tid': False, 'proc': 'procB', 'nc': 1, 'ns': 0, 'c': [4]})
     sts.append({'kind': 'select', 'tid': False, 'proc': str(P3), 'nc': 0, 'ns': 0})
+    for proc in ('0', 'kernel_task', '-1', ''):
+        sts.append({'kind': 'select', 'tid': False, 'proc': proc, 'nc': 0, 'ns': 0, 'pid0': True})
     sts.append({'kind': 'select', 'tid': True, 'proc': str(P3), 'nc': 1, 'ns': 0, 'c': [4]})
     sts.append({'kind': 'select', 'tid': True, 'proc': None, 'nc': 1, 'ns': 0, 'c': [7]})
     for seq in ('traces;traces', 'traces;callstacks'):
@@ -155,7 +157,9 @@ def _text_eq(ctx, a, b):
 
 def run(ctx, st):
     recs = skeleton(ctx)
-    data = K.v2_file(THREADS, 0, recs)
+    # pid0: the first thread belongs to pid 0 (kernel_task) - a pid that is falsy
+    threads = [(T1, 0, b'kernel_task'), (T2, P2, b'procB')] if st.get('pid0') else THREADS
+    data = K.v2_file(threads, 0, recs)
     if st['kind'] == 'sequence':
         return run_sequence(ctx, st, data)
     # unfiltered reference
@@ -193,6 +197,8 @@ def run(ctx, st):
         __import__('vxlib.symx.core', fromlist=['x']).proxy_rejected(e)
         ctx.check('C13/no-error', False, '%s: %s' % (type(e).__name__, e)); ctx.reach(); return
     pmap = {T1: (P1, 'procA'), T2: (P2, 'procB'), T3: (P3, '')}
+    if st.get('pid0'):
+        pmap[T1] = (0, 'kernel_task')
 
     def pred(t):
         e = t.ktraces[0]
